@@ -134,16 +134,16 @@ def writers(R):
              '%s returns %s' % (prop, [U(r.value) for r in rets]), func=f, node=(rets[0] if rets else None))
 
 
-def onlyclose(R):
+def onlyclose(R, RID='C08.onlyclose'):
     prod = []
     for (c, call, t) in R.types.callers.get(S + '.send', []) + R.types.callers.get(S + '.send_compressed', []):
         if call.args and fold(R, call.args[0], c) == 8:
             prod.append(c.func.qual)
     prod = sorted(set(prod))
-    R.ob('C08.onlyclose', 'CLOSE frames only from _send_close', prod == [WS + '._send_close'], 'opcode CLOSE sent from %s' % prod,
+    R.ob(RID, 'CLOSE frames only from _send_close', prod == [WS + '._send_close'], 'opcode CLOSE sent from %s' % prod,
          func=WS + '._send_close', node=None, construct='CLOSE producers %s' % prod)
     cs = sorted(set(c.func.qual for (c, call, t) in R.types.callers.get(WS + '._send_close', [])))
-    R.ob('C08.onlyclose', '_send_close only from close()', cs == [WS + '.close'], '_send_close called from %s' % cs,
+    R.ob(RID, '_send_close only from close()', cs == [WS + '.close'], '_send_close called from %s' % cs,
          func=WS + '._send_close', node=None, construct='_send_close callers %s' % cs)
     q = WS + '.close'
     g = R.cfg(q)
@@ -153,23 +153,23 @@ def onlyclose(R):
     st = [m for m in g.live_nodes() if m.kind == 'stmt' and isinstance(m.ast, ast.Assign)
           and U(m.ast.targets[0]) == 'self.state.closing' and U(m.ast.value) == 'True']
     ok = bool(st) and all_paths_pass(g, normal_succs(n), st, [g.exit], skip_edge=nx)
-    R.ob('C08.onlyclose', 'every send attempt enters the closing state', ok,
+    R.ob(RID, 'every send attempt enters the closing state', ok,
          'close() can return normally after attempting the Close send without setting closing (e.g. when the send '
          'failed after the bytes went out): later sends and a second Close are not refused', func=q, node=c)
     cf = R.func(q)
     a0, a1 = (c.args + [None, None])[:2]
     ok = a0 is not None and a1 is not None and U(a0) == cf.params[1] and U(a1) == cf.params[2]
-    R.ob('C08.onlyclose', 'close() sends its own code and reason', ok, '_send_close(%s)' % ', '.join(U(a) for a in c.args),
+    R.ob(RID, 'close() sends its own code and reason', ok, '_send_close(%s)' % ', '.join(U(a) for a in c.args),
          func=q, node=c)
     # _send_close swallows only transport/unavailable, returns after one attempt
     g2 = R.cfg(WS + '._send_close')
     esc = R.exc.escapes(g2.ctx)
-    R.ob('C08.onlyclose', 'a failed Close write does not raise out of close()', not {t for t in esc if t in (
+    R.ob(RID, 'a failed Close write does not raise out of close()', not {t for t in esc if t in (
         'errors.TransportFail', 'errors.WebSocketUnavailable', 'errors.WebSocketClosed', 'errors.WebSocketClosing')},
         '_send_close lets %s escape' % sorted(esc), func=WS + '._send_close', node=None, construct='_send_close escapes %s' % sorted(esc))
 
 
-def refuse(R):
+def refuse(R, RID='C08.refuse'):
     q = S + '.write'
     g = R.cfg(q)
     rd = ReachingDefs(g)
@@ -181,14 +181,14 @@ def refuse(R):
         lits = set(l) if not lits else lits & set(l)
     for atom, prop in (('self.websocket.state.closed', 'is_closed'), ('self.websocket.state.closing', 'is_closing')):
         ok = (atom, False) in lits or ('self.websocket.%s' % prop, False) in lits
-        R.ob('C08.refuse', 'sendall only when not %s' % prop, ok,
+        R.ob(RID, 'sendall only when not %s' % prop, ok,
              'sendall() is reachable without `%s` having been tested false (conditions: %s)' % (prop, sorted(lits)),
              func=q, node=c)
     for rn in [m for m in g.live_nodes() if m.kind == 'stmt' and isinstance(m.ast, ast.Raise)]:
         toks = R.exc.exc_tokens_of_value(rn.ast.exc, g.ctx)
         lits2 = {(t, p) for (t, p, _) in guards_of(g, rn)}
         if any(t in ('self.websocket.is_closed', 'self.websocket.is_closing') and p for (t, p) in lits2):
-            R.ob('C08.refuse', 'refusal raises a WebSocketError', all('errors.WebSocketError' in R.exc.supers(t) for t in toks),
+            R.ob(RID, 'refusal raises a WebSocketError', all('errors.WebSocketError' in R.exc.supers(t) for t in toks),
                  'refusal raises %s' % sorted(toks), func=q, node=rn.ast)
     # only write() writes to the session socket
     bad = []
@@ -201,11 +201,11 @@ def refuse(R):
         for (m, c2) in ext_calls(R, gg, {'socket.sendall', 'socket.send'}):
             if U(c2.func.value) == 'self._sock':
                 bad.append((cx.func, c2))
-    R.ob('C08.refuse', 'write() is the only writer of the session socket', not bad,
+    R.ob(RID, 'write() is the only writer of the session socket', not bad,
          '%s writes to self._sock directly' % (bad[0][0].qual if bad else ''), func=(bad[0][0] if bad else q),
          node=(bad[0][1] if bad else None), construct='direct socket writes')
     data = c.args[0] if c.args else None
-    R.ob('C08.refuse', 'write sends its argument', data is not None and is_param(rd, n, data), 'sendall(%s)' % U(data), func=q, node=c)
+    R.ob(RID, 'write sends its argument', data is not None and is_param(rd, n, data), 'sendall(%s)' % U(data), func=q, node=c)
 
 
 def server(R):
